@@ -79,6 +79,12 @@ Step ==
          /\ rel' = [r \in DOMAIN rel \cup {e.req} |-> IF r = e.req THEN RelOf(r) + 1 ELSE rel[r]]
          /\ bad' = IF RelOf(e.req) >= 1 THEN "ReleaseOnce" ELSE OK
          /\ UNCHANGED <<outst, called, returned, obsEnd, mustResp, ansFly, obsStart, errClosed>>
+    [] e.ev = "x_del" ->
+         \* exec unregisters the call of a request that was never written (conn.go: "release the stream after we remove
+         \* the call from c.calls"): an id that went back to the allocator while its call was still registered can be
+         \* handed to another request while it is in use (Conn.tla UniqueHold / Conservation)
+         /\ bad' = IF RelOf(e.req) >= 1 THEN "UniqueHold" ELSE OK
+         /\ UNCHANGED <<outst, called, returned, rel, obsEnd, mustResp, ansFly, obsStart, errClosed>>
     [] e.ev \in {"obs_finished", "obs_abandoned"} ->
          /\ obsEnd' = obsEnd \cup {e.req}
          /\ bad' = IF e.req # 0 /\ e.req \in obsEnd THEN "ObserverOnce" ELSE OK
